@@ -171,6 +171,29 @@ func probesFor(rng interface {
 			return o4.ProbeScript{Segments: [][]byte{append(append([]byte{}, h2.Bytes...), junk(rng, extra)...)}, ValidPrefix: len(h2.Bytes), CloseAfter: never, Policy: pol(), Garbage: []int{0, 50}[rng.IntN(2)]}
 		})
 	}
+	// the same with the padding at its extremes and the hello split, so that
+	// the read that completes it also carries the first trailing bytes
+	for pi, padLen := range []int{ref.ClientMaxPad, ref.ClientMaxPad - 1, ref.ClientMinPad, -1} {
+		for _, extra := range []int{1, 32, 1000} {
+			if !full && rng.IntN(3) != 0 && !(pi == 0 && extra == 1) {
+				continue
+			}
+			padLen, extra := padLen, extra
+			addf("extended-split", func() o4.ProbeScript {
+				pl := padLen
+				if pl < 0 {
+					pl = pad()
+				}
+				h2 := hello(b.Ref, pl, o4.Hours(0))
+				cut := len(h2.Bytes) / 2
+				if rng.IntN(2) == 0 {
+					cut = len(h2.Bytes) - 1 - rng.IntN(40)
+				}
+				tail := append(append([]byte{}, h2.Bytes[cut:]...), junk(rng, extra)...)
+				return o4.ProbeScript{Segments: [][]byte{h2.Bytes[:cut], tail}, Gaps: []time.Duration{0, time.Second}, ValidPrefix: len(h2.Bytes), CloseAfter: never}
+			})
+		}
+	}
 	for _, region := range []string{"repr", "pad", "mark", "mac"} {
 		region := region
 		addf("bitflip-"+region, func() o4.ProbeScript {
@@ -253,7 +276,7 @@ func TestCheck(t *testing.T) {
 	r := mon.Start(t, "C03")
 	defer r.Finish()
 	r.SpinWatch(memwire.BytesMoved)
-	r.Note("rule", "per bridge (fresh identity and DRBG seed; IAT mode and bias vary): a positive control (valid reference handshake -> the server answers), then probes of every class: silence, random strings of lengths around every limit (1..20000), a valid hello truncated at every field boundary +-1 / extended by trailing bytes / with one bit flipped in representative, padding, mark, MAC, wrong hour (+-2, +-3, other decimal renderings), wrong B, wrong NODEID, byte-identical replay of the accepted hello (at once, as 2..8 simultaneous presentations of one fresh hello of which at most one may be answered, and for hellos stamped hour -1/0/+1 again 1 s, 61 min, 2 h 5 min, 2 h 58 min, 3 h 1 min and 5 h after they were accepted), low-order-point representatives with valid mark+MAC, a valid hello completed after 31 s, mark beyond 8192, padding below the minimum, probes that disconnect first; each under a PRNG-chosen chunking {all,1,64,PRNG}, optionally with continuing garbage every second and a bounded 4 KiB window. Non-trivial = a probe that ran to the server's close (or its own disconnect); distinct = (bridge, class, index).")
+	r.Note("rule", "per bridge (fresh identity and DRBG seed; IAT mode and bias vary): a positive control (valid reference handshake -> the server answers), then probes of every class: silence, random strings of lengths around every limit (1..20000), a valid hello truncated at every field boundary +-1 / extended by trailing bytes (also with minimum and maximum padding and split so that the completing read carries the trailing bytes) / with one bit flipped in representative, padding, mark, MAC, wrong hour (+-2, +-3, other decimal renderings), wrong B, wrong NODEID, byte-identical replay of the accepted hello (at once, as 2..8 simultaneous presentations of one fresh hello of which at most one may be answered, and for hellos stamped hour -1/0/+1 again 1 s, 61 min, 2 h 5 min, 2 h 58 min, 3 h 1 min and 5 h after they were accepted), low-order-point representatives with valid mark+MAC, a valid hello completed after 31 s, mark beyond 8192, padding below the minimum, probes that disconnect first; each under a PRNG-chosen chunking {all,1,64,PRNG}, optionally with continuing garbage every second and a bounded 4 KiB window. Non-trivial = a probe that ran to the server's close (or its own disconnect); distinct = (bridge, class, index).")
 	dir := o4.StateDir("c03")
 	nBridges := r.Pick(64, 1024)
 	for bi := 0; bi < nBridges; bi++ {
